@@ -154,14 +154,19 @@ func (x *Unit) typeInv(st *State, v Val, depth int) T {
 		if r, ok := intRange(tt); ok && x.eng.ranges {
 			return And(Cmp(">=", v.T, BigIntLit(r[0])), Cmp("<=", v.T, BigIntLit(r[1])))
 		}
-	case *types.Pointer, *types.Chan:
+	case *types.Chan:
+		// channels of different element types never alias
+		x.u.DeclFun("chantype", "(Int) Int")
+		id := IntLit(int64(x.u.TypeID(tt.Elem())))
+		return And(Cmp(">=", v.T, IntLit(0)), Cmp("<=", x.proot(v.T), st.alloc), Or(Eq(v.T, IntLit(0)), Eq(App(SInt, "chantype", v.T), id)))
+	case *types.Pointer:
 		return And(Cmp(">=", v.T, IntLit(0)), Cmp("<=", x.proot(v.T), st.alloc))
 	case *types.Slice:
 		return And(Cmp(">=", x.u.SliceLen(v.T), IntLit(0)), Cmp(">=", x.u.SliceCap(v.T), x.u.SliceLen(v.T)))
 	case *types.Map:
 		return And(Cmp(">=", x.u.MapLen(v.T), IntLit(0)), Imp(x.u.MapNil(v.T), Eq(x.u.MapLen(v.T), IntLit(0))))
 	case *types.Interface:
-		return Cmp(">=", IfaceTyp(v.T), IntLit(0))
+		return And(Cmp(">=", IfaceTyp(v.T), IntLit(0)), Imp(Eq(IfaceTyp(v.T), IntLit(0)), Eq(IfaceVal(v.T), IntLit(0))))
 	case *types.Struct:
 		if depth > 2 {
 			return True
@@ -902,6 +907,12 @@ func (x *Unit) binop(st *State, op token.Token, a, b Val, rt types.Type, n ast.N
 				o = b
 			}
 			r = x.u.MapNil(o.T)
+		} else if a.Sort == SIface && (a.S == IfaceNil.S || b.S == IfaceNil.S) {
+			o := a
+			if a.S == IfaceNil.S {
+				o = b
+			}
+			r = Eq(IfaceTyp(o.T), IntLit(0))
 		} else {
 			r = Eq(a.T, b.T)
 		}
